@@ -30,6 +30,15 @@ func c12Bytes(f, n, salt int) []byte {
 			} else {
 				b[i-1] = byte((i*7 + salt) % 256)
 			}
+		case 6, 7, 8:
+			switch {
+			case i == n:
+				b[i-1] = map[int]byte{6: 1, 7: 0, 8: 2}[f]
+			case i > n-4:
+				b[i-1] = 0
+			default:
+				b[i-1] = byte((i*13 + salt) % 256)
+			}
 		case 5:
 			switch {
 			case i <= 16:
